@@ -290,6 +290,10 @@ fn path_route(ctx: &mut Ctx, scn: &PairScn, shapes: &[shapefile::Shape], geoms: 
     let base = dir.join(format!("pair-{}", crate::prng::fnv_str(&serde_json::to_string(scn).unwrap_or_default())));
     let shp_path = base.with_extension("shp");
     let mut expected: Vec<usize> = Vec::new();
+    // the path is not fresh: longer files are already there and must be replaced entirely
+    for ext in ["shp", "shx", "dbf"] {
+        let _ = std::fs::write(base.with_extension(ext), vec![0xCD; 4000]);
+    }
     let r = guarded(|| -> Result<(), shapefile::Error> {
         let mut w = Writer::from_path(&shp_path, table())?;
         for call in &scn.calls {
